@@ -112,6 +112,8 @@ type c03In struct {
 	CutAt    int         `json:"cutAt"` //
 
 	CStream  bool     `json:"cstream"`  // clientMaxBodySize -1
+	CNeg     int64    `json:"cneg"`     // the negative clientMaxBodySize used when CStream (0 = -1)
+	Mirror   bool     `json:"mirror"`   // the proxy has a mirrorPool (second backend) matching requests with "X-Mirror: 1"
 	SStream  bool     `json:"sstream"`  // serverMaxBodySize -1 (proxy level), when PoolMax = ProxyMax = 0
 	PoolMax  int64    `json:"poolMax"`  // pool-level serverMaxBodySize
 	ProxyMax int64    `json:"proxyMax"` // proxy-level serverMaxBodySize
@@ -363,6 +365,10 @@ func c03PipelineYAML(in *c03In, addr string) string {
 }
 
 func c03PipelineYAMLExt(in *c03In, addr string, mc *c03Cache, ed *c03Edit) string {
+	return c03PipelineYAMLFull(in, addr, "", mc, ed)
+}
+
+func c03PipelineYAMLFull(in *c03In, addr, mirrorAddr string, mc *c03Cache, ed *c03Edit) string {
 	var w strings.Builder
 	w.WriteString("name: p\nkind: Pipeline\nfilters:\n")
 	adapt := func(kind, name string, a c03Adapt) {
@@ -432,6 +438,9 @@ func c03PipelineYAMLExt(in *c03In, addr string, mc *c03Cache, ed *c03Edit) strin
 		if in.Weight > 0 {
 			fmt.Fprintf(&w, "      weight: %d\n", in.Weight)
 		}
+	}
+	if in.Mirror && mirrorAddr != "" {
+		fmt.Fprintf(&w, "  mirrorPool:\n    filter:\n      headers:\n        \"X-Mirror\":\n          exact: \"1\"\n    servers:\n    - url: http://%s\n", mirrorAddr)
 	}
 	adapt("ResponseAdaptor", "respadaptor", in.RS)
 	return w.String()
@@ -530,13 +539,25 @@ func c03Run(in c03In) (obs c03Obs) {
 	}()
 	be := c07StartBackend(c03Script(&in))
 	defer be.Close()
-	cmax := 0
-	if in.CStream {
-		cmax = -1
+	mirrorAddr := ""
+	if in.Mirror {
+		mb := c07StartBackend([]byte("HTTP/1.1 200 Mirrored\r\nContent-Length: 8\r\n\r\nmirrored"))
+		defer mb.Close()
+		mirrorAddr = mb.Addr()
 	}
-	fr := c07StartFront(c07ServerYAML(int64(cmax), 0), c03PipelineYAML(&in, be.Addr()))
+	fr := c07StartFront(c07ServerYAML(c03ClientMax(&in), 0), c03PipelineYAMLFull(&in, be.Addr(), mirrorAddr, nil, nil))
 	defer fr.Close()
 	return c03Serve(fr, be, &in)
+}
+
+func c03ClientMax(in *c03In) int64 {
+	if !in.CStream {
+		return 0
+	}
+	if in.CNeg < 0 {
+		return in.CNeg
+	}
+	return -1
 }
 
 func c03RunHist(h *c03HistIn) (obs c03HistObs) {
@@ -551,11 +572,7 @@ func c03RunHist(h *c03HistIn) (obs c03HistObs) {
 	be := c07StartBackend(nil)
 	defer be.Close()
 	first := &h.Steps[0]
-	cmax := 0
-	if first.CStream {
-		cmax = -1
-	}
-	fr := c07StartFront(c07ServerYAML(int64(cmax), 0), c03PipelineYAMLExt(first, be.Addr(), &h.Cache, &h.Edit))
+	fr := c07StartFront(c07ServerYAML(c03ClientMax(first), 0), c03PipelineYAMLExt(first, be.Addr(), &h.Cache, &h.Edit))
 	defer fr.Close()
 	for i := range h.Steps {
 		be.SetRaw(c03Script(&h.Steps[i]))
@@ -776,7 +793,16 @@ func c03Gen(r *vfRand, adv bool) (in c03In) {
 		}
 	}
 	in.CStream = r.Chance(1, 4)
+	if in.CStream && r.Chance(1, 2) { // any negative value streams
+		in.CNeg = []int64{-2, -1024, -9223372036854775807}[r.Intn(3)]
+	}
 	in.SStream = r.Chance(1, 4)
+	if r.Chance(1, 6) {
+		in.Mirror = true
+		if r.Chance(3, 4) {
+			in.Headers = append(in.Headers, [2]string{"X-Mirror", "1"})
+		}
+	}
 	in.SrvHost = r.PickStr("127.0.0.1", "localhost", "localhost")
 	in.KeepHost = r.Chance(1, 3)
 	// the Host rule under every load-balance policy
@@ -825,7 +851,8 @@ func c03Gen(r *vfRand, adv bool) (in c03In) {
 	if r.Chance(1, 5) || (adv && r.Bool()) {
 		limL = r.PickInt(64, 300, 1000, 5000)
 		L := int64(limL)
-		pairs := [][2]int64{{-1, L}, {-1, L}, {L, -1}, {0, L}, {L, 0}, {-1, 0}, {0, -1}, {L, 2 * L}, {2 * L, L}, {-1, -1}}
+		neg := []int64{-1, -1, -2, -1024, -9223372036854775807}[r.Intn(5)]
+		pairs := [][2]int64{{neg, L}, {neg, L}, {L, neg}, {0, L}, {L, 0}, {neg, 0}, {0, neg}, {L, 2 * L}, {2 * L, L}, {neg, -1}}
 		pp := pairs[r.Intn(len(pairs))]
 		in.SStream, in.PoolMax, in.ProxyMax = false, pp[0], pp[1]
 	}
